@@ -391,6 +391,27 @@ Theorem c19_the_property : forall analysis arch platform_id e pc l,
 Proof. exact the_property. Qed.
 Print Assumptions c19_the_property.
 
+(* ... and for a dump with Linux maps lines (start, end, rwx bits) *)
+Theorem c19_the_property_maps : forall analysis arch platform_id e pc l,
+  u64_recs l ->
+  let c := dump_cpu arch in
+  let os := os_class (dump_os platform_id) in
+  let r := dump_reason arch platform_id e in
+  let address := dump_address arch platform_id e in
+  let flips := dump_pipeline analysis arch platform_id e pc (regions_of_maps l) in
+  (forall f, In f flips ->
+     exists a j, examined_by analysis c os r address pc f a /\
+                 inaccessible (regions_of_maps l) (memop_of_reason r) a /\
+                 br_lo (pipeline_br analysis c os r address pc) <= j < br_hi (pipeline_br analysis c os r address pc) /\
+                 f_addr f = Z.lxor a (2 ^ j) /\
+                 (f_addr f = 0 \/
+                  exists lo hi p, In (lo, hi, p) l /\ lo <= f_addr f <= hi /\ maps_allows (memop_of_reason r) p = true) /\
+                 le_b32 (f32 0) (confidence (f_det f)) = true /\ le_b32 (confidence (f_det f)) (f32 F32_ONE_bits) = true) /\
+  (forall x oa, pc = Some x -> analysis x = Some oa -> has_null_flag oa -> flips = []) /\
+  (~ (arch = 9 \/ arch = 32770 \/ arch = 32772) -> flips = []).
+Proof. exact the_property_maps. Qed.
+Print Assumptions c19_the_property_maps.
+
 Theorem c19_record_accessible : forall op l1 base size prot l2 a,
   u64_recs (l1 ++ (base, size, prot) :: l2) ->
   size <> 0 -> base + size < two64 -> base <= a < base + size ->
